@@ -53,6 +53,10 @@ static void cb_node(Search*, int, Info* info, int, Value, Value)
 }
 
 static bool g_dump_limits = false;
+template <class L> static int clock_flag(const L& l)
+{
+    if constexpr (requires { l.clock; }) return l.clock ? 1 : 0; else return -1;
+}
 
 // VERIF_DUMP_LIMITS=1: at go entry print what Uci::go_command parsed (the Limits the Search was built from), then stop the
 // search at once, so that every go - whatever its limits - ends immediately
@@ -64,7 +68,7 @@ static void dump_limits(Search* s)
     sync_cout << "info string VERIF limits ponder=" << (l.ponder ? 1 : 0) << " wtime=" << l.timeleft[WHITE] << " btime=" << l.timeleft[BLACK]
               << " winc=" << l.timeinc[WHITE] << " binc=" << l.timeinc[BLACK] << " movestogo=" << l.movestogo << " depth=" << l.depth
               << " nodes=" << l.nodes << " mate=" << l.mate << " movetime=" << l.movetime << " infinite=" << (l.infinite ? 1 : 0)
-              << " searchmoves=" << (ms.empty() ? "-" : ms) << sync_endl;
+              << " searchmoves=" << (ms.empty() ? "-" : ms) << " clock=" << clock_flag(l) << sync_endl;
     s->stop();
 }
 
